@@ -184,10 +184,76 @@ static err_t call_derOID(fc_ctx* c)
 	return ERR_OK;
 }
 
+/* decoders on codes they did not produce: every proper prefix of a valid code (in a buffer of
+   exactly the prefix), and a long-form tag with a redundant zero octet.  A decoder either refuses
+   (SIZE_MAX) or reports what is really there: the tag and the length of the valid code, and no
+   more octets than it was given. */
+static void gen_derPrefix(fc_ctx* c)
+{
+	size_t n;
+	c->n[0] = FC_PICK(c, TAGS), c->n[1] = (size_t)fc_below(c, 140);
+	c->a[1] = fc_pub(c, c->n[1]);
+	n = derEnc(0, (u32)c->n[0], c->a[1], c->n[1]);
+	c->n[2] = n;
+	c->a[0] = fc_out(c, n);
+	c->n[3] = (size_t)fc_below(c, (uint32_t)n);      /* length of the prefix */
+	c->a[2] = fc_out(c, c->n[3] ? c->n[3] : 1);
+	c->a[5] = fc_out(c, 4 * sizeof(size_t));
+	c->variant = (int)(c->n[3] < 6 ? c->n[3] : 6);
+}
+static err_t call_derPrefix(fc_ctx* c)
+{
+	size_t* r = (size_t*)c->a[5];
+	octet* full = (octet*)c->a[0];
+	octet* cut = (octet*)c->a[2];
+	u32 tag = 0xEEEEEEEE;
+	const octet* val = 0;
+	size_t len = (size_t)-3, k = c->n[3];
+	memset(r, 0, 4 * sizeof(size_t));
+	if (derEnc(full, (u32)c->n[0], c->a[1], c->n[1]) != c->n[2])
+		return ERR_BAD_LOGIC;
+	memcpy(cut, full, k);
+	r[0] = derTLDec(&tag, &len, cut, k);
+	if (r[0] != SIZE_MAX && (r[0] > k || tag != (u32)c->n[0] || len != c->n[1]))
+		return ERR_BAD_FORMAT;   /* a TL pair that is not the one of the code */
+	r[1] = derDec(&tag, &val, &len, cut, k);
+	if (r[1] != SIZE_MAX || derIsValid(cut, k))
+		return ERR_BAD_FORMAT;   /* a proper prefix is not a code */
+	/* a length so large that "TL octets + length" wraps around: 04 88 FF FF FF FF FF FF FF Fx */
+	{
+		octet wr[32];
+		size_t cnt = 10 + (size_t)fc_below(c, 20), back = 1 + (size_t)fc_below(c, 10 + (uint32_t)(cnt - 10));
+		size_t big = (size_t)0 - back;      /* 10 + big = 10 - back (mod 2^64) <= cnt */
+		int i;
+		memset(wr, 0x11, sizeof(wr));
+		wr[0] = 0x04, wr[1] = 0x88;
+		for (i = 0; i < 8; ++i)
+			wr[2 + i] = (octet)(big >> (56 - 8 * i));
+		tag = 0xEEEEEEEE, len = (size_t)-3, val = 0;
+		if (big != SIZE_MAX && (derDec(&tag, &val, &len, wr, cnt) != SIZE_MAX || derIsValid(wr, cnt)))
+			return ERR_BAD_FORMAT;   /* a value of almost 2^64 octets inside a code of a few octets */
+	}
+	/* long-form tag whose first continuation octet carries no bits (5F 80 .., 7F 00 ..): not DER */
+	if (c->n[0] > 0xFF && c->n[2] >= 3)
+	{
+		octet* red = (octet*)c->a[0];
+		octet keep = red[1];
+		red[1] &= 0x80;
+		tag = 0xEEEEEEEE, len = (size_t)-3;
+		r[2] = derTLDec(&tag, &len, red, c->n[2]);
+		r[3] = (size_t)derIsValid(red, c->n[2]);
+		red[1] = keep;
+		if (r[2] != SIZE_MAX || r[3])
+			return ERR_BAD_FORMAT;
+	}
+	return ERR_OK;
+}
+
 #define D(NAME, GEN, CALL) { NAME, GEN, CALL, 0, FC_MATH }
 const fc_desc fc_der[] = {
 	D("derEnc/derDec", gen_derEnc, call_derEnc), D("derTSIZEEnc/Dec", gen_derSIZE, call_derSIZE),
 	D("derTUINTEnc/Dec", gen_derUINT, call_derUINT), D("derTBITEnc/Dec", gen_derBIT, call_derBIT),
 	D("derTOCTDec", gen_derOCT, call_derOCT), D("derOIDEnc/Dec", gen_derOID, call_derOID),
+	D("der decoders on prefixes", gen_derPrefix, call_derPrefix),
 };
 const unsigned fc_der_n = sizeof(fc_der) / sizeof(fc_der[0]);
